@@ -505,6 +505,26 @@ def pipeTtl (T : Ttl.Tables) (rdfa : List Prefix.Mapping) (S : Prefix.Sorter) (r
     (src : Kind) (decoded : List (Quad Node)) : OutResult :=
   pipeTtlWith T rdfa (Prefix.new S) raw base ord1 ord2 U s h src decoded
 
+open BN in
+/-- The Turtle pipe with the label ASSIGNMENT as a parameter: `assign` is the function from blank nodes to labels
+    that the (stateful) label provider realises over the run. Which fresh UUID text an unlabelled node gets depends
+    on the order of first requests — statement order for `AddTriple`, writing order at `Close` with `resources`
+    (where inlined nodes get none) — but every such run is `pipeTtlAssign` for SOME assignment; `pipeTtlWith` is
+    the instance where the provider is asked in statement order (`Props/C18Targets.lean: pipe_ttl_assign_link`).
+    Theorems stated for every admissible `assign` therefore do not depend on the draw order. -/
+def pipeTtlAssign (T : Ttl.Tables) (rdfa : List Prefix.Mapping) (mk : List Prefix.Mapping → Prefix.PM)
+    (raw : List (List Nat)) (base : List Nat) (ord1 ord2 : List (Term Bytes)) (assign : Node → Bytes)
+    (src : Kind) (decoded : List (Quad Node)) : OutResult :=
+  match ttlOptions rdfa raw base with
+  | none => .openErr
+  | some (cfg, resources) =>
+    match toTriples ((pipeStatements src .triples decoded).map (Quad.map assign)) with
+    | none => .outside
+    | some ts =>
+      let pm := mk cfg.prefixes
+      if resources then OutResult.ofOR (TtlEnc.encodeResourcesWith T false cfg pm id ord1 ord2 ts)
+      else OutResult.ofRes (TtlEnc.encodePlainWith T cfg pm id ts)
+
 /-- the `AddTriple` calls of the pipe loop on the RDF/JSON encoder: the first refused statement ends the
     command (`write: …`) -/
 def rjAddAll : RJ.State → List (RJ.Triple (List Nat)) → Option RJ.State
